@@ -304,9 +304,12 @@ def shrink(pid, tier, rec, cls, deadline, known_sigs):
         except BaseException:
             return None
         if vio is not None and vio.cls() == cls and vio.sig not in known_sigs:
+            last["marks"] = list(ch.marks)
+            last["count_pos"] = ch.count_pos
             return ch.record
         return None
 
+    last = {"marks": [], "count_pos": None}
     best = list(rec)
     r = fails(best)
     if r is None:
@@ -316,6 +319,24 @@ def shrink(pid, tier, rec, cls, deadline, known_sigs):
     tries = 0
     while improved and time.time() < deadline:
         improved = False
+        # delete whole marked operations (last first), lowering the operation count with them
+        marks, cpos = list(last["marks"]), last["count_pos"]
+        k = len(marks) - 1
+        while k >= 0 and time.time() < deadline:
+            s0 = marks[k]
+            e0 = marks[k + 1] if k + 1 < len(marks) else len(best)
+            if s0 < e0 <= len(best):
+                cand = best[:s0] + best[e0:]
+                if cpos is not None and cpos < s0 and cand[cpos] > 0:
+                    cand[cpos] -= 1
+                tries += 1
+                r = fails(cand)
+                if r is not None and len(r) < len(best):
+                    best = r
+                    improved = True
+                    marks, cpos = list(last["marks"]), last["count_pos"]
+                    k = min(k, len(marks))
+            k -= 1
         # delete spans
         span = max(1, len(best) // 2)
         while span >= 1 and time.time() < deadline:
